@@ -239,6 +239,7 @@ def run(rep, tier):
     rep.evaluations += len(impl_cases) + len(uniq)
     rep.compared += len(impl_cases)
     rep.distinct.update(impl_cases)
+    common.attribute_panics(rep, "L2", impl_cases, io)
     for i in (0, 1, 2, len(impl_cases) // 2, len(impl_cases) - 1):
         rep.sample({"lane": "L2", "impl_case": impl_cases[i], "model_case": model_cases[i],
                     "impl": io[i], "model": mo[model_cases[i]]})
